@@ -54,6 +54,17 @@ def step (cur : Commit) (j : Json) : Commit × Json :=
       ("age", mkArr (age.map fun a => Json.mkObj [("EntityName", a.1), ("Date", a.2)])),
       ("changelog", Json.mkObj ((GoMap.entries cm).map fun (k, im) => (k, Json.mkObj ((GoMap.entries im).map fun (f, n) => (f, mkNat n))))),
       ("basic", Json.mkObj [("Commits", mkNat b.commits), ("Entities", mkNat b.entities), ("Changes", mkInt b.changes), ("Authors", mkNat b.authors)])])
+  | "summaryrepo" =>
+    -- the tables `coca git -b -t -o` prints for the commits it parsed in a real repository (the commits are handed over
+    -- from the command's own commits.json)
+    let cs := (arr j "commits").map decCommit
+    let team := teamSummary idσ cs
+    let top := topAuthors idσ cs
+    let b := basicSummary cs
+    (cur, Json.mkObj [
+      ("team", mkArr (team.map fun t => Json.mkObj [("EntityName", t.name), ("AuthorCount", mkNat t.authorCount), ("RevsCount", mkNat t.revsCount)])),
+      ("top", mkArr (top.map fun t => Json.mkObj [("Name", t.name), ("CommitCount", mkNat t.commitCount), ("LineCount", mkInt t.lineCount)])),
+      ("basic", Json.mkObj [("Commits", mkNat b.commits), ("Entities", mkNat b.entities), ("Changes", mkInt b.changes), ("Authors", mkNat b.authors)])])
   | _ => (cur, Json.null)
 
 end CocaVerif.Drv.Git
